@@ -95,10 +95,12 @@ def _strip(e):
     return {k: v for k, v in e.items() if k not in ("proj", "kind", "backend", "fsync", "geom", "file", "what", "n_beh")}
 
 
-def validate(groups, batch_atomic=False, tag="val", workers=6):
+def validate(groups, batch_atomic=False, tag="val", workers=6, drop=()):
     """groups: {gid: [events]}. Validates every group against the contract WalrusAPI with TLC.
     Returns {gid: {"ok": bool, "matched": k, "first_unmatched": event or None}} and TLC totals."""
     root = C.ensure_dir(os.path.join(C.BUILD, "runs", "%s-%d" % (tag, os.getpid())))
+    if drop:
+        groups = {g: [e for e in evs if e.get("ev") not in drop] for g, evs in groups.items()}
     gids = list(groups.keys())
     # partition into TLC runs
     parts, cur, cnt = [], [], 0
@@ -127,20 +129,21 @@ def validate(groups, batch_atomic=False, tag="val", workers=6):
                     line += 1
                 bounds.append((g, first, line))
         rc, out, wall = C.tlc(os.path.join(C.SPEC, "Trace_WalrusAPI.tla"), cfg, d, env={"TRACE": tr},
-                              workers=1, timeout=1800)
+                              workers=1, timeout=900)
         if "Error:" in out or rc not in (0,):
             raise C.ToolError("TLC trace validation failed to run:\n" + out[-3000:])
         reached = set(int(x) for x in re.findall(r'<<"AT", (\d+)>>', out))
         gen, dist = C.tlc_stats(out)
         verd = {}
         for g, first, last in bounds:
+            verd_events = groups[g]
             # accepted iff the position just after the last event was reached without skipping
             if (last + 1) in reached:
                 verd[g] = {"ok": True, "matched": last - first + 1, "first_unmatched": None}
             else:
                 k = max([x for x in reached if first <= x <= last + 1] or [first])
-                verd[g] = {"ok": False, "matched": k - first, "first_unmatched": groups[g][k - first],
-                           "index": k - first}
+                verd[g] = {"ok": False, "matched": k - first, "first_unmatched": verd_events[k - first],
+                           "index": k - first, "events": verd_events if drop else None}
         shutil.rmtree(d, ignore_errors=True)
         return verd, gen, dist, wall
 
@@ -204,6 +207,17 @@ def classify(events, index, states):
     d["after_crash"] = any(x.get("ev") == "crash" for x in pre)
     last = pre[-1].get("ev") if pre else None
     d["prev_ev"] = last
+    # history attribute: some topic's first acknowledged entry does not fit a default block
+    # (its initial block stays empty: known finding about block-id drift across restarts)
+    geom = events[0].get("geom", "tiny") if events else "tiny"
+    blk = 2048 if geom == "tiny" else 10 * 1024 * 1024
+    first = {}
+    for x in pre:
+        if x.get("ev") == "append" and x.get("res") == "ok":
+            first.setdefault(x["t"], x["size"])
+        elif x.get("ev") == "batch" and x.get("res") == "ok" and x.get("es"):
+            first.setdefault(x["t"], x["es"][0][1])
+    d["oversized_first_entry"] = any(sz + 256 > blk for sz in first.values())
     if ev in ("hang", "died"):
         d["kind"] = ev
         return d
@@ -232,6 +246,9 @@ def classify(events, index, states):
         return d
     if ev == "reclaim":
         d["kind"] = "premature_reclaim"
+        if st:
+            d["consumed_in_memory"] = all(p[1] <= st["cur"].get(p[0], 0) - st.get("slack", {}).get(p[0], 0)
+                                          for p in e.get("stored", []))
         return d
     if ev in ("read", "bread") and st:
         t = e["t"]
